@@ -58,7 +58,7 @@ Mutate(o) ==
   /\ IF o.op = "slice"
      THEN \* a new DataModel object over the sliced frame: nothing cached
           need' = TRUE /\ cache' = << >> /\ schema' = cols /\ indexer' = NoIndex
-     ELSE IF o.op = "reset_index" \/ (o.op = "fillna" /\ ~FillnaSetsFlag)
+     ELSE IF o.op \in {"reset_index", "touch_source"} \/ (o.op = "fillna" /\ ~FillnaSetsFlag)
      THEN UNCHANGED <<need, cache, schema, indexer>>
      ELSE need' = TRUE /\ schema' = cols' /\ indexer' = FlagIndexer(indexer) /\ UNCHANGED cache
 
